@@ -190,10 +190,10 @@ def Cleaned (s : Rpc) : Prop :=
 
 instance (s : Rpc) : Decidable (Cleaned s) := by unfold Cleaned; exact inferInstance
 
-/-- the monitor invariant: every pending id is in the ring, `value_number_` is the ring's size, the
-1-s timer is enabled iff something is monitored -/
+/-- the monitor invariant: every pending request's token (its `seq`) is in the ring, `value_number_` is
+the ring's size, the 1-s timer is enabled iff something is monitored -/
 def Monitored (s : Rpc) : Prop :=
-  (∀ e ∈ s.pending, e.1 ∈ s.ring.flatten) ∧ s.vn = s.ring.flatten.length ∧ (s.timerOn = true ↔ 0 < s.vn)
+  (∀ e ∈ s.pending, e.2.tag + 1 ∈ s.ring.flatten) ∧ s.vn = s.ring.flatten.length ∧ (s.timerOn = true ↔ 0 < s.vn)
 
 instance (s : Rpc) : Decidable (Monitored s) := by unfold Monitored; exact inferInstance
 
@@ -207,7 +207,7 @@ def Rpc.completeAllOrig (s : Rpc) (code : Int) : List Nat → Rpc × List REv ×
   | id :: ids =>
     if s.dead then (s, [], true)
     else
-      let r1 := s.complete id code
+      let r1 := s.expireOne id code
       let r2 := Rpc.completeAllOrig r1.1 code ids
       (r2.1, r1.2 ++ r2.2.1, r2.2.2)
 
@@ -260,9 +260,9 @@ def peerOps (w : World) (onB : Bool) : List WOp → List Op
 /-! ### the id counter set from outside (`jump`)
 
 `id_alloc_` after any number of requests that were issued and completed in between — and, by
-going backwards, after the counter has wrapped: a `jump v` followed by `request` reuses id `v + 1`
-whatever is still pending or still sits in the timeout ring.  (Test-only in the harness; the
-theorems over `runJ` therefore hold for *every* allocation policy of positive `int` ids.) -/
+going backwards, after the counter has wrapped: a `jump v` followed by `request` takes the first id
+after `v` that is not pending — an id that may still have a (stale) token in the timeout ring.
+(Test-only in the harness; the theorems over `runJ` hold for every position of the counter.) -/
 
 inductive JOp where
   | op (o : Op)
@@ -278,6 +278,48 @@ def runJ (s : Rpc) : List JOp → Rpc × List REv
   | op :: ops =>
     let r1 := stepJ s op
     let r2 := runJ r1.1 ops
+    (r2.1, r1.2 ++ r2.2)
+
+/-! ### the id allocation and the timeout ring as found (before patches/C14-08, C14-09), for the
+counterexample: `id = ++id_alloc_` without a look at the table, the ring holds bare ids and the timeout
+handler looks the id up -/
+
+def Rpc.requestOrig (s : Rpc) (script : Nat) (m : Nat := 0) : Rpc × List REv :=
+  let id := s.idAlloc + 1
+  let cb : Cb := { tag := s.nTag, script := script }
+  let s1 := { s with idAlloc := id, nTag := s.nTag + 1,
+                     pending := pendingErase s.pending id ++ [(id, cb)] }
+  (s1.monitorAdd id, [.sent id m])
+
+def Rpc.completeAllById (s : Rpc) (code : Int) : List Nat → Rpc × List REv
+  | [] => (s, [])
+  | id :: ids =>
+    let r1 := s.complete (id : Int) code
+    let r2 := Rpc.completeAllById r1.1 code ids
+    (r2.1, r1.2 ++ r2.2)
+
+def Rpc.tickById (s : Rpc) : Rpc × List REv :=
+  match s.ring with
+  | [] => (s, [])
+  | cur :: rest =>
+    match rest ++ [cur] with
+    | [] => (s, [])
+    | items :: others =>
+      let vn' := s.vn - items.length
+      Rpc.completeAllById { s with ring := [] :: others, vn := vn', timerOn := if vn' = 0 then false else s.timerOn }
+        kRequestTimeout items
+
+def stepOrigJ (s : Rpc) : JOp → Rpc × List REv
+  | .op (.request c m) => if s.dead then (s, [.misuse]) else s.requestOrig c m
+  | .op .tick => s.tickById
+  | .op o => step s o
+  | .jump v => (s.jump v, [])
+
+def runOrigJ (s : Rpc) : List JOp → Rpc × List REv
+  | [] => (s, [])
+  | op :: ops =>
+    let r1 := stepOrigJ s op
+    let r2 := runOrigJ r1.1 ops
     (r2.1, r1.2 ++ r2.2)
 
 /-- the counter and every pending id are positive C++ `int`s -/
